@@ -15,6 +15,7 @@ import Driver.DStream
 import Driver.Serialize
 import Driver.BlockEnc
 import Driver.CStream
+import Driver.Wear
 
 def main (args : List String) : IO UInt32 := do
   match args with
@@ -35,4 +36,5 @@ def main (args : List String) : IO UInt32 := do
   | ["serialize"] => Driver.Serialize.main; return 0
   | ["blockenc"] => Driver.BlockEnc.main; return 0
   | ["cstream"] => Driver.CStream.main; return 0
+  | ["wear"] => Driver.Wear.main; return 0
   | _ => IO.eprintln "usage: zvdriver <model>"; return 2
